@@ -165,17 +165,25 @@ func candidatesC02(c *Case) []*Case {
 		}
 	case c.Graph != nil:
 		for _, g := range graphCandidates(c.Graph) {
-			out = append(out, &Case{Graph: g})
+			out = append(out, &Case{Graph: g, Typed: c.Typed, NilInput: c.NilInput})
 		}
 	}
 	return out
 }
+
+// shrinksLeft: a change that breaks many cases (a node re-fired in every step: 70 of 600 cases fail) needs a few
+// minimal replays, not one per failing case; the first ones of a process are minimised, the others reported as found.
+var shrinksLeft = 6
 
 func (engine) Shrink(c any, stillFails func(any) bool) any {
 	cur, ok := c.(*Case)
 	if !ok {
 		return c
 	}
+	if shrinksLeft <= 0 {
+		return c
+	}
+	shrinksLeft--
 	budget := 300
 	for progress := true; progress && budget > 0; {
 		progress = false
